@@ -363,6 +363,42 @@ class C05(EmuCheck):
             g = self.program_group(gid, words, base, regs0, seed, nins, data=data, run=1)
             g += self.program_group(gid, words, base, regs0, seed, nins, data=data, moves=moves, run=2)
             out.append(g)
+        # memory accesses through one base register at DIFFERENT offsets that still touch the same bytes (a wide access
+        # over a narrow one, misaligned neighbours), and a store hidden behind a closer store to another offset: every
+        # order of the two / three accesses is requested
+        LD = {1: (0, 4), 2: (1, 5), 4: (2, 6), 8: (3,)}           # width -> load funct3 (signed, unsigned)
+        ST = {1: 0, 2: 1, 4: 2, 8: 3}
+        combos = []
+        for ws in (1, 2, 4, 8):
+            for wl in (1, 2, 4, 8):
+                for os_ in (0, 4, 8):
+                    for ol in range(max(0, os_ - wl + 1), os_ + ws):
+                        if ol != os_:
+                            combos.append((ws, wl, os_, ol))
+        rng.shuffle(combos)
+        for ci, (ws, wl, os_, ol) in enumerate(combos[:40 if tier == "quick" else len(combos)]):
+            st = s_type(0x23, ST[ws], rs1=5, rs2=7, imm=os_)
+            ld = i_type(0x03, rng.choice(LD[wl]), 6, 5, ol)
+            st2 = s_type(0x23, ST[wl], rs1=5, rs2=8, imm=ol)
+            far = s_type(0x23, 2, rs1=5, rs2=9, imm=os_ + 16)
+            shapes = [([st, ld], [[0, 1, 0]]), ([ld, st], [[0, 1, 0]]), ([st, st2], [[0, 0, 1]]),
+                      ([st, far, i_type(0x03, rng.choice(LD[ws]), 6, 5, os_)], [[0, 2, 0]]),
+                      ([st2, far, ld], [[0, 2, 0], [0, 0, 2]])]
+            for si, (ws_, moves) in enumerate(shapes):
+                if tier == "quick" and (ci + si) % 2:
+                    continue
+                words = [i_type(0x13, 0, 7, 0, 0x5A5), i_type(0x13, 0, 8, 0, 0x3C3)] + ws_
+                k0 = 2
+                moves = [[0, f + k0, t + k0] for _, f, t in moves]
+                words.append(b_type(0x63, 1, 6, 0, -4 * len(words)))
+                base = rng.choice(CODE_BASES)
+                basev = sum(b << (8 * j) for j, b in enumerate(base))
+                regs0 = {"x5": le8((basev + 0x800) & ~7)}
+                seed = rng.randrange(1 << 30)
+                gid = "ov%d_%d" % (ci, si)
+                g = self.program_group(gid, words, base, regs0, seed, len(words), run=1)
+                g += self.program_group(gid, words, base, regs0, seed, len(words), moves=moves, run=2)
+                out.append(g)
         return out
 
     def abs_group(self, gid, ins, moves, bmoves, seed, nsteps, entry=0, ip=0):
